@@ -24,6 +24,13 @@ def sort_instances(tier):
     # runs > 10 min / exhausts the memory cap; see DESIGN.md §5.18)
     # units under the real constants (partition with the real BLOCK = 128 exhausts memory even at length 5:
     # it is covered under the shrunk BLOCK = 4)
+    # concrete arrangement + concrete cancel moment under the shrunk constants (join reached from length 4 on);
+    # the driver enumerates the moment, the solver the order of the halves of every join
+    for l, perms, ks in ([(6, [0], [3, 6, 9])] if q else [(6, [0], range(1, 16))]):   # (length 8 - the first length at which a half can itself notice the flag - runs > 4 min per instance: not registered)
+        for pm in perms:
+            for k in ks:
+                add("qs_small_cancelled_concrete_l%d_p%d_k%d" % (l, pm, k), l + 4, "quicksort_cancelled_concrete::<%d>(%d, %d)" % (l, pm, k),
+                    {"len": l, "constants": "shrunk (MAX_INSERTION 3, MAX_SEQUENTIAL 2, BLOCK 4)", "arrangement": "concrete #%d" % pm, "cancel": "at comparison %d" % k, "join_order": "solver-chosen"}, True)
     units = [("heapsort_unit", [5, 6] if q else [2, 3, 4, 5, 6, 8]), ("insertion_unit", [4] if q else [2, 4, 6]),
              ("partial_insertion_unit", [5] if q else [3, 5, 7]),
              ("partition_equal_unit", [4] if q else [2, 4, 6, 8]), ("choose_pivot_unit", [8] if q else [3, 8, 9]),
